@@ -163,7 +163,7 @@ fn case_with_word(rc: &RealCase, w: &[u8], mode: u8) -> Value {
 }
 
 /// Walks the reference trie of one module and compares every real observation with the oracle of `property`.
-pub fn evaluate_module(property: &str, rc: &RealCase, obs: &std::collections::HashMap<(Vec<u8>, u8), Obs>, compile_error: &Option<String>, hang: &Option<(Vec<u8>, u8)>, acc: &mut Acc) {
+pub fn evaluate_module(property: &str, rc: &RealCase, obs: &std::collections::HashMap<(Vec<u8>, u8), Obs>, compile_error: &Option<String>, hang: &Option<(Vec<u8>, u8)>, capped: bool, acc: &mut Acc) {
     let case = &rc.case;
     if let Some(e) = compile_error {
         // a module that does not compile is C05's finding; here it only means "not observed"
@@ -269,6 +269,10 @@ pub fn evaluate_module(property: &str, rc: &RealCase, obs: &std::collections::Ha
         }
         for mode in 0..3u8 {
             let Some(o) = lookup(mode) else {
+                if capped {
+                    acc.inc("words not run because the module's word budget was used up");
+                    continue;
+                }
                 if !reported {
                     acc.self_check_errors.push(format!("missing real observation for {w:?} mode {mode} in a module without earlier mismatch"));
                     reported = true;
@@ -388,7 +392,7 @@ pub fn run_layer(property: &str, specs: &[Spec], deep: bool, extra_presentations
     let mut acc = Acc::default();
     for (i, rc) in cases.iter().enumerate() {
         let mut a = Acc::default();
-        evaluate_module(property, rc, &res.obs[i], &res.compile_errors[i], &res.hangs[i], &mut a);
+        evaluate_module(property, rc, &res.obs[i], &res.compile_errors[i], &res.hangs[i], res.capped[i], &mut a);
         if i % 997 == 0 {
             if let Some((k, o)) = res.obs[i].iter().filter(|(k, _)| k.1 == 0).max_by_key(|(k, _)| k.0.len()) {
                 a.samples.push(json!({"layer": "real", "source": rc.case.rendered.source, "word": k.0, "observed": o.desc, "next_calls": o.count}));
@@ -408,6 +412,6 @@ pub fn replay(property: &str, case: &Value) -> Option<Vec<Finding>> {
     let mods = to_modules(std::slice::from_ref(&rc));
     let res = run_real(&mods, "replay");
     let mut acc = Acc::default();
-    evaluate_module(property, &rc, &res.obs[0], &res.compile_errors[0], &res.hangs[0], &mut acc);
+    evaluate_module(property, &rc, &res.obs[0], &res.compile_errors[0], &res.hangs[0], res.capped[0], &mut acc);
     Some(acc.findings)
 }
